@@ -66,11 +66,22 @@ class State:
         v = self.iv.get(s)
         if v is None:
             r = self.st.range(s)
-            return D.rng(r[0], r[1])
+            v = D.rng(r[0], r[1])
+        l = self.lin.get(s)
+        if l is not None and l.t:
+            h = self.hull(l)
+            if h is not None and (h[0] > v[0][0] or h[1] < v[-1][1]):
+                v = D.meet(v, D.rng(h[0], h[1]))
         return v
 
     def term(self, s):
-        return self.lin.get(s) or Lin.var(s)
+        l = self.lin.get(s)
+        if l is not None:
+            return l
+        iv = self.iv.get(s)
+        if iv is not None and len(iv) == 1 and iv[0][0] == iv[0][1]:
+            return Lin.const(iv[0][0])
+        return Lin.var(s)
 
     def kill(self, s):
         """Forget everything known about symbol s (it is about to be redefined)."""
@@ -227,8 +238,11 @@ class State:
                 self.refine(s, D.rng(-(bound // kk), D.hi(iv)))
             if self.dead:
                 return
-        if h[1] <= 0:
-            return  # already implied by intervals
+        if len(f.t) == 1:
+            return  # a one-symbol fact is exactly its interval refinement
+        h = self.hull(f)
+        if h is None or h[1] <= 0:
+            return  # implied by intervals
         if f in self.facts:
             return
         if len(self.facts) < MAX_FACTS:
